@@ -319,7 +319,7 @@ func main() {
 	r := rng.New(*seed)
 	nProg, nVal, sets, perShard := 3, 3, quickSets, 700
 	if *tier == "thorough" {
-		nProg, nVal, sets, perShard = 8, 6, thoroughSets, 600
+		nProg, nVal, sets, perShard = 5, 6, thoroughSets, 1500
 	}
 	st := &stats{Schema: map[string]int{}, CaseKinds: map[string]int{}, ReadKinds: map[string]int{}, ObsErr: map[string]int{},
 		OptionSets: map[string]string{},
